@@ -227,7 +227,8 @@ func TestVerifBounded_C19_Workers(t *testing.T) {
 	// Map: one result per chunk, the chunks partition the input
 	for r := 0; r < rounds/3; r++ {
 		x := r + seed
-		n, threads, maxChunk := 1+(x*5)%40, 1+x%5, 1+(x*3)%9
+		// threads below 1 mean "as many as GOMAXPROCS", as for NewProcessor
+		n, threads, maxChunk := 1+(x*5)%40, x%7-1, 1+(x*3)%9
 		set := make(verifInts, n)
 		total := 0
 		for i := range set {
